@@ -1,0 +1,20 @@
+//go:build !verif
+
+// No-op twins of the verification hooks (see verif_hooks.go, build tag verif).
+// With the tag off every call site compiles to nothing.
+
+package txpool
+
+import (
+	"github.com/vechain/thor/v2/chain"
+	"github.com/vechain/thor/v2/thor"
+)
+
+func verifTrace(*txObjectMap, string, *TxObject)                     {}
+func verifTraceHash(*txObjectMap, string, thor.Bytes32)              {}
+func verifTraceCost(*txObjectMap, thor.Address)                      {}
+func verifTraceSnapshot(*txObjectMap, []*TxObject)                   {}
+func verifWashBegin(*TxPool, *chain.BlockSummary, bool, []*TxObject) {}
+func verifWashMark(*TxPool, string, *TxObject, error)                {}
+func verifWashEvaluated(*TxPool, *TxObject, bool)                    {}
+func verifWashLimit(*TxPool, []*TxObject, []*TxObject)               {}
